@@ -644,6 +644,8 @@ def tie_getters(ctx):
                             continue
                         bi, obj, stored, shp = meta
                         got, gshape = classify_block(obj, stored, name)
+                        if got == [0] and len(m) == 2 and m[0] == 2 and np.all(np.asarray(stored) == m[1]):
+                            got = m      # the stored values happen to equal the fill value: indistinguishable
                         if got != m:
                             ctx.disagree('tie=getters;errors=%r;block=%s;model=%s' % (errors, got[0], m[0]),
                                          dict(case, kind='getters', array=name, index_pre=pre, block=list(bi)), got, m,
